@@ -436,7 +436,7 @@ func maxPar() int {
 }
 
 func writeReplayFile(prop, name string, content map[string]interface{}) string {
-	dir := filepath.Join(verifDir, "replay", "out")
+	dir := filepath.Join(outDir(), "replay", "out")
 	os.MkdirAll(dir, 0o755)
 	safe := strings.NewReplacer("/", "_", "#", "_", "(", "", ")", "", "*", "", ":", "_", " ", "_", "@", "_at_").Replace(name)
 	p := filepath.Join(dir, prop+"_"+safe+".json")
@@ -543,9 +543,9 @@ func writeEvidence(prop, tier string, seed int, pr *PropRun, failures []*Failure
 	}
 	ev["coverage"] = cov
 	ev["assumptions"] = assumptions
-	os.MkdirAll(filepath.Join(verifDir, "evidence"), 0o755)
+	os.MkdirAll(filepath.Join(outDir(), "evidence"), 0o755)
 	b, _ := json.MarshalIndent(ev, "", " ")
-	os.WriteFile(filepath.Join(verifDir, "evidence", prop+".json"), b, 0o644)
+	os.WriteFile(filepath.Join(outDir(), "evidence", prop+".json"), b, 0o644)
 }
 
 func knownObls(failures []*Failure, knownHit []string, prop string) int {
@@ -560,3 +560,10 @@ func knownObls(failures []*Failure, knownHit []string, prop string) int {
 }
 
 func cmdSelftest(args []string) int { return 2 }
+
+func outDir() string {
+	if d := os.Getenv("GOVC_OUT"); d != "" {
+		return d
+	}
+	return verifDir
+}
